@@ -132,7 +132,7 @@ pub fn plan(property: &str) -> Option<CheckPlan> {
             assumptions: vec!["success (connect + first registration + one delivered message) is expected iff both sides are CA-issued; for the trusted pairing it is demanded only on a loss-free network", "a refusal may surface at connect() or at the first registration (TLS 1.3 validates the client certificate after the client has finished)"],
             real: N_REAL.to_vec(),
             stubbed: N_STUB.to_vec(),
-            items: vec![PlanItem { family: &nsim::mtls::MTLS, quick: 200, thorough: 16_000 }],
+            items: vec![PlanItem { family: &nsim::mtls::MTLS, quick: 240, thorough: 19_200 }],
         }),
         "C16" => Some(CheckPlan {
             property: "C16",
